@@ -980,6 +980,7 @@ func (s *Sim) exec(t *stask) {
 // just long enough to do that), then stays blocked on its gate.
 func (s *Sim) park(t *stask) {
 	t.state = stParked
+	s.last = t
 	if RaceEnabled {
 		s.resumeTask(t, resume{how: howPark})
 		if t.state == stDone { // aborted/panicked while parking cannot happen, but stay safe
